@@ -245,12 +245,15 @@ pub fn guarded<R>(f: impl FnOnce() -> R) -> Result<R, Vec<String>> {
 // ---------------------------------------------------------------------------
 // proptest runner from a binary
 
+/// shrink budget; engine-level checks lower it because each iteration runs two endpoints
+pub static MAX_SHRINK_ITERS: std::sync::atomic::AtomicU32 = std::sync::atomic::AtomicU32::new(2000);
+
 pub fn pt_config(cases: u32, seed: u64) -> Config {
     Config {
         cases,
         failure_persistence: None,
         rng_seed: RngSeed::Fixed(seed),
-        max_shrink_iters: 2000,
+        max_shrink_iters: MAX_SHRINK_ITERS.load(std::sync::atomic::Ordering::Relaxed),
         max_global_rejects: 1 << 20,
         ..Config::default()
     }
@@ -407,9 +410,12 @@ pub fn open_findings_for(prop: &str) -> Vec<Json> {
         .collect()
 }
 
+/// ids of the open findings of a property plus every open codec-scope finding (their classes
+/// are carved out of message bodies everywhere so that they are not re-reported elsewhere)
 pub fn open_ids_for(prop: &str) -> Vec<String> {
-    open_findings_for(prop)
-        .iter()
+    known_findings()
+        .into_iter()
+        .filter(|f| f["status"] == "open" && (f["scope"] == "codec" || f["property"] == prop || f["also"].as_array().map(|a| a.iter().any(|x| x == prop)).unwrap_or(false)))
         .filter_map(|f| f["id"].as_str().map(|s| s.to_string()))
         .collect()
 }
